@@ -1,4 +1,4 @@
-from . import cycle, sidecar, proxy, store, k8s
+from . import cycle, sidecar, proxy, store, k8s, discovery
 CHECKS = {}
 for p in cycle.PROPS:
     CHECKS[p] = cycle.check
@@ -8,3 +8,4 @@ CHECKS['C12'] = proxy.check
 CHECKS['C13'] = proxy.check
 CHECKS['C09'] = store.check
 CHECKS['C18'] = k8s.check
+CHECKS['C17'] = discovery.check
